@@ -12,1035 +12,1083 @@ Definition show_fres (r : fres) : string :=
   end.
 Definition check (rs : list rune) : string := digest (show_fres (format_res rs)).
 Definition full (rs : list rune) : string := show_fres (format_res rs).
-Eval vm_compute in ("<<<M1619>>>" ++ check (runes_of_ascii "// top
-options {
-    // c1
-    LittleEndian = true;// c5
-    StringPrefixLenType = u16;
-    // c9
-    ArrayPrefixLenType = u8;// c13
-    FixedStringPadChar = ' ';// c17
-}// c18a
-
-// c18b
-packet Ack {
-    @leftPad(
-        // c23
-    ' ' )
-    // c25
-    char[5] lastPx,
-    zchar[4] count,// c35a
-    // c35b
-    repeat InVenue30 {
-        char[9] Side2,
-        char[12] venue,// c48
+Eval vm_compute in ("<<<M1591>>>" ++ check (runes_of_ascii "packet A {
+    roots {
+        repeat char[00] matchKey `crlf
+                line`,
+    },// @lengthOf(
+    @tag(3)
+    char[255] x,
+    @leftPad('\x00')
+    repeat uint16 crc,
+    match u as pack {
+        [""x y"", 4294967296] : roots,
+        [1, 0] : _x,
+        ""packet"" : T,
+        255 : BodyLength,
+        ""a	b"" : uint8x,
     },
-    // c50
-}// c51a
+    @rightPad('\x00')
+    u64 tag,
+}
 
-// c51b
-packet Order {
-    // c54a
-    // c54b
-    int16 Note,// c57a
-    // c57b
-    repeat InAcct28 {
-        // c60
-        InSym3 {
-            // c62
-            Ack,
-            // c64
-            char[4] lastPx,
-            char[1] venue,// c74
-            f32 Ref,// c77
-        },
-        repeat InTag729 {
-            // c82
-            char[3] Side2,
-            // c87
-            uint64 Acct,// c90a
-            // c90b
-            char[] price,
-            zchar[9] Note,
-            // c98
-            zchar[9] venue,
-            // c103
-        },
-        char[] count,// c108a
-        // c108b
-        Ack,
-        // c110
-        char[] Px,// c113
-    },// c115a
-    // c115b
-    u8 f1,
-    // c118
-    Ack,// c120a
-    // c120b
-}// c121a
+packet trueish {
+    match i64_ as Packet {
+        ""packet"" : body,
+        65535 : Pad,
+        10 : packetx,
+        3 : pack,
+        00 : Header,
+        3 : As,
+        // packet A { u8 x, }
+    },
+    @lengthOf(MetaDataX)
+    i8 stringy ``,
+    @calculatedFrom(""`tick`"")
+    @leftPad(' ')
+    // `tick` ""quote"" 'q'
+    char[] calculatedFrom @calculatedFrom(""// no comment""),
+}
 
-// c121b
-packet Fill {
-    zchar[7] x,// c129a
-    // c129b
-    Order,// c131a
-    // c131b
-    @leftPad(
-        // c133
-    ' ' // c134
-    )
-    char[9] venue,
-    // c140
-    string count,
-    char[] Flags,// c146a
-    // c146b
-}// c147
+MetaData calculatedFrom {
+    pack As,
+    f32a calculatedFrom,
+    int16 chars `say ""hi""`,
+    uint16 msg_type `{ , }`,
+    i32 o,
+}
+
+packet chars {
+    lengthOf MetaDataX,
+    string len @lengthOf(uint8x),
+    @tag(0123456789)
+    match stringy as x {
+        10 : lengthOf,
+    },
+    @tag(7)
+    @rightPad()
+    @tag(00)
+    uint16 crc,
+    int8 trueish @lengthOf(stringy),
+    repeat i64_,
+    zchar[7] T @calculatedFrom(""a\""b"") `two words`,
+    // a // b
+    @tag(007)
+    zchar[65535] MetaDataX @lengthOf(len) `" ++ [233]%N ++ runes_of_ascii "`,
+    char metadata @lengthOf(lengthOf),
+}
+
+root packet matchKey {
+    @calculatedFrom(""" ++ [28040; 24687]%N ++ runes_of_ascii """)
+    repeat char[007] stringy,
+    string a1 `doc`,
+    zchar[7] A,
+    @lengthOf(options1)
+    //
+    zchar[00] Foo `two words`,
+    @calculatedFrom(""1"")
+    @leftPad(' ')
+    @leftPad(' ')
+    repeat u8 options1,
+    uint8 i64_ `" ++ [233]%N ++ runes_of_ascii "`,
+    @tag(10)
+    @lengthOf(i8i8)
+    @lengthOf(i64_)
+    //x
+    match A as packetx {
+        10 : asx,
+        [""\n"", 65535, ""{,}"", 007, ""CRC32""] : metadata,
+        00 : o,
+    },
+}")).
+Eval vm_compute in ("<<<M1692>>>" ++ check (runes_of_ascii "
+options	{
+    StringPrefixLenType=  u16
+	;
+ArrayPrefixLenType
+    = 
+u16 ;
+
+}
+	packet SampleBinary	{
+	uint16
+	MsgType
+
+    `" ++ [28040; 24687; 31867; 22411]%N ++ runes_of_ascii "`	,  u16
+BodyLenght @lengthOf(  Body) `" ++ [28040; 24687; 20307; 38271; 24230]%N ++ runes_of_ascii "`
+,
+	match
+MsgType as
+
+    Body
+
+    { 
+1
+: Logon
+, 2 :
+	Logout,  3	:
+Heartbeat, 
+4 :RiskControlRequest, 5 :RiskControlResponse
+	,
+    } , @calculatedFrom(
+""CRC32"" )
+u32
+Ckecksum  `" ++ [26657; 39564; 21644]%N ++ runes_of_ascii "`
+,}	packet	Logon
+{ @leftPad
+
+('0' )
+
+    char[  10]	UserName
+`" ++ [29992; 25143; 21517]%N ++ runes_of_ascii "`  ,	string
+	Password	`" ++ [23494; 30721]%N ++ runes_of_ascii "`
+, 
+uint64
+    ClientId`" ++ [23458; 25143; 31471]%N ++ runes_of_ascii "ID`
+
+,u16
+    HeartbeatInterval
+`" ++ [24515; 36339; 38388; 38548]%N ++ runes_of_ascii "`	, }
+
+    packet
+    Logout 
+{ @rightPad
+(
+'0'	) char[
+
+    10
+	]
+	UserName `" ++ [29992; 25143; 21517]%N ++ runes_of_ascii "`	,
+
+uint64
+
+    ClientId
+`" ++ [23458; 25143; 31471]%N ++ runes_of_ascii "ID`  ,}
+
+packet
+Heartbeat  {
+
+    }
+
+    packet  RiskControlRequest  {
+string
+	UniqueOrderId`" ++ [21807; 19968; 35746; 21333; 21495]%N ++ runes_of_ascii "`
+,char[
+	16 
+]
+
+    ClOrdID`" ++ [23458; 25143; 35746; 21333; 21495]%N ++ runes_of_ascii "`  ,char[
+	3 
+]
+MarketID
+
+`" ++ [24066; 22330]%N ++ runes_of_ascii "id` ,
+
+char[	12
+
+] SecurityID
+    `" ++ [35777; 21048; 20195; 30721]%N ++ runes_of_ascii "`,
+	char
+	Side `" ++ [20080; 21334; 26041; 21521]%N ++ runes_of_ascii "`	,
+    char 
+OrderType `" ++ [35746; 21333; 31867; 22411]%N ++ runes_of_ascii "`
+	,
+u64
+	Price  `" ++ [20215; 26684]%N ++ runes_of_ascii "`
+	, u32 
+Qty `" ++ [25968; 37327]%N ++ runes_of_ascii "`
+
+,
+	repeat
+    string
+
+ExtraInfo
+	`" ++ [38468; 21152; 20449; 24687]%N ++ runes_of_ascii "`
+
+    ,
+	repeat 
+SubOrder{
+
+char[ 16
+    ] ClOrdID
+
+    `" ++ [23376; 35746; 21333; 21495]%N ++ runes_of_ascii "`
+	,  u64 Price `" ++ [23376; 35746; 21333; 20215; 26684]%N ++ runes_of_ascii "`  ,  u32
+    Qty	`" ++ [23376; 35746; 21333; 25968; 37327]%N ++ runes_of_ascii "`
+	, }
+, }packet
+RiskControlResponse  {
+string
+	UniqueOrderId
+
+    `" ++ [21807; 19968; 35746; 21333; 21495]%N ++ runes_of_ascii "`
+	,	i32
+Status `" ++ [29366; 24577]%N ++ runes_of_ascii "` ,
+string Msg  `" ++ [32467; 26524; 20449; 24687]%N ++ runes_of_ascii "`,
+repeat	Detail  ,}packet
+Detail { string
+
+RuleName
+
+`" ++ [35268; 21017; 21517; 31216]%N ++ runes_of_ascii "`
+
+    ,u16	Code
+	`" ++ [21407; 22240; 20195; 30721]%N ++ runes_of_ascii "` 
+,
+    } ")).
+Eval vm_compute in ("<<<M383>>>" ++ check (runes_of_ascii "options {
+	StringPrefixLenType = u16;
+	ArrayPrefixLenType = u16;
+}
+
+packet SampleBinary {
+	uint16 MsgType `" ++ [28040; 24687; 31867; 22411]%N ++ runes_of_ascii "`,
+	u16 BodyLenght @lengthOf(Body) `" ++ [28040; 24687; 20307; 38271; 24230]%N ++ runes_of_ascii "`,
+	match MsgType as Body {
+		1 : Logon,
+		2 : Logout,
+		3 : Heartbeat,
+		4 : RiskControlRequest,
+		5 : RiskControlResponse,
+	},
+	@calculatedFrom(""CRC32"")
+	u32 Ckecksum `" ++ [26657; 39564; 21644]%N ++ runes_of_ascii "`,
+}
 
 packet Logon {
-    // c150
-}// c151a
-
-// c151b
-packet Reject {
-    Order,
-    // c156
-    char[] sym,// c159a
-    // c159b
-}// c160
-
-root packet Quote {
-    string price,
-    // c167
-    i64 Flags,// c170a
-    // c170b
-    repeat Fill,// c173
-    zchar[9] x,// c178
-    f32 lastPx,// c181a
-    // c181b
-    repeat Ack,
-    // c184
+	@leftPad('0')
+	char[10] UserName `" ++ [29992; 25143; 21517]%N ++ runes_of_ascii "`,
+	string Password `" ++ [23494; 30721]%N ++ runes_of_ascii "`,
+	uint64 ClientId `" ++ [23458; 25143; 31471]%N ++ runes_of_ascii "ID`,
+	u16 HeartbeatInterval `" ++ [24515; 36339; 38388; 38548]%N ++ runes_of_ascii "`,
 }
-// c185")).
-Eval vm_compute in ("<<<M1471>>>" ++ check (runes_of_ascii "root packet u8x {
-    // trailing space 
-    repeat u64 Pad,
-    i64_ @calculatedFrom(""x y"") `100% of %d`,
-    @calculatedFrom(""a	b"")
-    @lengthOf(Header)
-    @lengthOf(zchar)
-    i32 A @lengthOf(falsey),
-    repeat zchar[10] f32a `
-        `,
-    repeat f64 rootA `line1
-        line2`,// packet A { u8 x, }
-    match string_ as o {
-        65535 : options1,
-        // a // b
-        // " ++ [128512]%N ++ runes_of_ascii " emoji
-        ""// no comment"" : packetx,
-        ""\" ++ [233]%N ++ runes_of_ascii """ : lengthOf,
-        65535 : BodyLength,
-        ""packet"" : a1,
+
+packet Logout {
+	@rightPad('0')
+	char[10] UserName `" ++ [29992; 25143; 21517]%N ++ runes_of_ascii "`,
+	uint64 ClientId `" ++ [23458; 25143; 31471]%N ++ runes_of_ascii "ID`,
+}
+
+packet Heartbeat {
+}
+
+packet RiskControlRequest {
+	string UniqueOrderId `" ++ [21807; 19968; 35746; 21333; 21495]%N ++ runes_of_ascii "`,
+	char[16] ClOrdID `" ++ [23458; 25143; 35746; 21333; 21495]%N ++ runes_of_ascii "`,
+	char[3] MarketID `" ++ [24066; 22330]%N ++ runes_of_ascii "id`,
+	char[12] SecurityID `" ++ [35777; 21048; 20195; 30721]%N ++ runes_of_ascii "`,
+	char Side `" ++ [20080; 21334; 26041; 21521]%N ++ runes_of_ascii "`,
+	char OrderType `" ++ [35746; 21333; 31867; 22411]%N ++ runes_of_ascii "`,
+	u64 Price `" ++ [20215; 26684]%N ++ runes_of_ascii "`,
+	u32 Qty `" ++ [25968; 37327]%N ++ runes_of_ascii "`,
+	repeat string ExtraInfo `" ++ [38468; 21152; 20449; 24687]%N ++ runes_of_ascii "`,
+	repeat SubOrder {
+		char[16] ClOrdID `" ++ [23376; 35746; 21333; 21495]%N ++ runes_of_ascii "`,
+		u64 Price `" ++ [23376; 35746; 21333; 20215; 26684]%N ++ runes_of_ascii "`,
+		u32 Qty `" ++ [23376; 35746; 21333; 25968; 37327]%N ++ runes_of_ascii "`,
+	},
+}
+
+packet RiskControlResponse {
+	string UniqueOrderId `" ++ [21807; 19968; 35746; 21333; 21495]%N ++ runes_of_ascii "`,
+	i32 Status `" ++ [29366; 24577]%N ++ runes_of_ascii "`,
+	string Msg `" ++ [32467; 26524; 20449; 24687]%N ++ runes_of_ascii "`,
+	repeat Detail,
+}
+
+packet Detail {
+	string RuleName `" ++ [35268; 21017; 21517; 31216]%N ++ runes_of_ascii "`,
+	u16 Code `" ++ [21407; 22240; 20195; 30721]%N ++ runes_of_ascii "`,
+}")).
+Eval vm_compute in ("<<<M145>>>" ++ check (runes_of_ascii "options
+{ }
+root packet tag{ @calculatedFrom(
+    // @lengthOf(
+    ""packet"" ) u128 @lengthOf(zchar
+) ,
+    } packet _x { @calculatedFrom( ""a\\"" )//
+@rightPad (	' ' ) As , zchar// c
+@calculatedFrom( """ ++ [233]%N ++ runes_of_ascii "t" ++ [233]%N ++ runes_of_ascii """ ) `tab	here` // trailing space 
+, @tag(007 ) @lengthOf( //	t
+zchar ) // packet A { u8 x, }
+string crc
+,string u128
+    // c
+    @calculatedFrom(
+    ""packet""
+//
+// `tick` ""quote"" 'q'
+)// c
+,
+    repeat uint64 asx, @lengthOf( zchar) lengthOf
+{
+string
+trueish `// not a comment`
+    , }	,
+// trailing space 
+// `tick` ""quote"" 'q'
+@tag(0) u128 { repeat f64 /// triple
+crc
+``
+, char[
+3 ] Foo`crlf
+line` , repeat
+//x
+// @lengthOf(
+float uint8x
+,
+char[
+10 ] msg_type
+`u8 x,`, }// packet A { u8 x, }
+,
+uint64	string_,
+packetx matchKey
+, // 50% %s
+@leftPad
+    (' ' ) repeat zchar[ // @lengthOf(
+255  ]
+    Z9_,} MetaData crc {calculatedFrom
+body `// not a comment`
+    ,i64_
+i8i8 , o options1  `u8 x,` , char[
+10 ] pack , }
+// a // b
+")).
+Eval vm_compute in ("<<<M1699>>>" ++ check (runes_of_ascii "
+options
+    {
+_x =
+
+    '0' 
+    // a // b
+
+// packet A { u8 x, }
+	;
+    Logon
+
+=
+false 
+} packet
+A
+    { } packet //
+  Logon
+{ 
+@leftPad(
+	' '
+)
+    repeat
+	repeatCount
+	{
+
+stringy
+
+    @lengthOf( 
+  // " ++ [27880; 37322]%N ++ runes_of_ascii "
+// trailing space 
+
+	len // @lengthOf(
+)	`say ""hi""` ,
+
+repeat metadata
+`u8 x,`
+
+,  match
+	x	as 
+int
+    {[""`tick`"" , 7
+
+] // trailing space 
+		:
+
+    BodyLength,  255 :packetx
+42	// " ++ [128512]%N ++ runes_of_ascii " emoji
+    :
+    _x,	}
+
+, } ,
+@rightPad ('0'
+	) @leftPad ( ' ' )
+@tag(	65535
+    )
+Header
+
+    `{ , }`
+
+    , int16  // trailing space 
+  stringy @lengthOf( // " ++ [128512]%N ++ runes_of_ascii " emoji
+	  calculatedFrom
+
+)
+
+    , repeat  MetaDataX
+{ 
+x_y_z 
+, repeat 	 //
+calculatedFrom o
+
+    `doc`
+	,string_
+    repeatCount 
+,
+rootA
+
+{
+repeatCount  @calculatedFrom( ""\" ++ [233]%N ++ runes_of_ascii """) `tab	here` ,
+}  ,	}
+, } ")).
+Eval vm_compute in ("<<<M132>>>" ++ check (runes_of_ascii "// @lengthOf(
+packet x_y_z { float32 T
+    @lengthOf( int)// c
+, @tag( //	t
+255 ) @calculatedFrom( ""\n"")
+    lengthOf { repeat Packet repeatCount
+    ,} , char[ 0]body
+`two words`  ,
+o// a // b
+`a\`
+    , @tag(1) repeat	Foo lengthOf//	t
+,
+repeat lengthOf {
+    string_ @lengthOf(
+// packet A { u8 x, }
+// trailing space 
+x_y_z
+    // " ++ [128512]%N ++ runes_of_ascii " emoji
+    )
+    , repeat asx {
+    int16 float
+    @calculatedFrom( ""CRC32"" ) ,
+} ,//
+i8 leftPad@calculatedFrom(""\n""
+)
+`// not a comment`	,} , char[
+    00 ]u ,	match a1 as roots
+// `tick` ""quote"" 'q'
+// `tick` ""quote"" 'q'
+{//
+[ """ ++ [28040; 24687]%N ++ runes_of_ascii """ ,""// no comment""	, /// triple
+""1"",	0 ] // a // b
+: calculatedFrom
+,  } , } options  { metadata =char[] }
+")).
+Eval vm_compute in ("<<<M274>>>" ++ check (runes_of_ascii "packet x_y_z {
+    @tag(1 ) string	u
+@calculatedFrom(
+""`tick`"" ) ,
+} packet	chars { char[ 00 ]
+    crc `two words`
+, @lengthOf( calculatedFrom ) uint64 _x`
+`
+    // " ++ [27880; 37322]%N ++ runes_of_ascii "
+    , match Logon
+as falsey
+{[	""`tick`"" , ""\n"" ,
+007 //	t
+, 007
+, 1, 3
+    , ""it's""]
+: options1  , [42 , """ ++ [28040; 24687]%N ++ runes_of_ascii """ ] : msg_type
+, 007
+    : string_ , } ,// 50% %s
+repeatCount lengthOf, @tag( 007
+    )
+    Pad , } packet
+A	{	@calculatedFrom( ""CRC32"" ) @lengthOf( zchar ) repeatCount {
+zchar[
+0 ] stringy `two words` ,	} //
+, i16 falsey
+,match A // @lengthOf(
+as tag
+{ 3 :i64_ , [0123456789  ]
+    : chars
+, 7 :  options1 ,} , }")).
+Eval vm_compute in ("<<<M51>>>" ++ check (runes_of_ascii "options {lengthOf // " ++ [128512]%N ++ runes_of_ascii " emoji
+=// `tick` ""quote"" 'q'
+true ; string_ =
+    ""a\\"" ;}
+root packet zchar
+{string_ // " ++ [27880; 37322]%N ++ runes_of_ascii "
+{ match
+//
+//x
+x as string_{
+    //	t
+    0: zchar  ,
+} ,
+    }
+    ,	@calculatedFrom(	""CRC32"" ) @tag( 42
+) repeat
+char[
+    4294967296 ] u `say ""hi""` ,
+    // 50% %s
+    @tag( 3 )  @leftPad ( ' ' ) @tag( // `tick` ""quote"" 'q'
+42	) match Header
+as A { 42 : Logon ,  } ,
+@tag(
+4294967296
+)i64_ `doc` ,} root packet
+x_y_z { @calculatedFrom( ""// no comment"" ) @leftPad ( ) @lengthOf( int)//	t
+u8x `" ++ [28040; 24687; 31867; 22411]%N ++ runes_of_ascii "`
+    ,
+    }
+")).
+Eval vm_compute in ("<<<M1796>>>" ++ check (runes_of_ascii "// top
+
+	packet 	 // c0
+      B 	 // c1
+      {  
+      // c2
+  u8	a	// c4
+
+  ,
+    // c5
+    } // c6a
+    // c6b
+	root 
+  // c7
+  packet  // c8a
+	// c8b
+  P  // c9a
+	// c9b
+    {
+	u8 K // c12a
+  // c12b
+, // c13
+    u64 // c14a
+  // c14b
+    L	// c15
+
+@lengthOf(	// c16
+		Body	// c17
+)  // c18
+	, match// c20a
+  // c20b
+    K // c21
+as	// c22
+  Body
+{  // c24a
+    	// c24b
+  1	// c25a
+
+// c25b
+      :  // c26
+B
+, // c28a
+	// c28b
+	}  ,	// c30a
+    	// c30b
+	}  // c31a
+// c31b
+")).
+Eval vm_compute in ("<<<M322>>>" ++ check (runes_of_ascii "// `tick` ""quote"" 'q'
+root packet uint8x {@leftPad	() matchKey@lengthOf(repeatCount ),
+    // @lengthOf(
+    @tag( 10 ) zchar[ 65535 ] u
+    , char[]
+x_y_z ,char[] /// triple
+tag @calculatedFrom( ""a\""b"") ,
+@tag(	65535)
+@calculatedFrom(
+""a	b"" // 50% %s
+)
+    @calculatedFrom( ""`tick`""
+) body @lengthOf(
+    falsey ) //	t
+``, @calculatedFrom(	""" ++ [28040; 24687]%N ++ runes_of_ascii """
+    // `tick` ""quote"" 'q'
+    )  @calculatedFrom( ""a\""b"")
+Pad , u16
+matchKey
+    /// triple
+    , }")).
+Eval vm_compute in ("<<<M1609>>>" ++ check (runes_of_ascii "  packet 
+NewOrder{
+u32
+    qty
+,} 
+packet	Cancel
+    {
+
+u64
+
+    id , }
+packet 
+Business
+
+{
+u8
+
+Kind ,
+    match Kind	as
+
+Detail
+
+{ 1
+:
+NewOrder
+, 2
+: 
+Cancel , }
+, } 
+packet
+    TcpFrame
+{
+u8
+	T , match
+T
+
+as Body
+
+    { 
+1	:
+	Business
+
+    ,  } , }	packet
+
+UdpFrame
+{u8
+U ,	match
+U as Body{  1
+
+    :
+
+Business
+    ,}
+    , Business extra
+,	}
+root packet
+    Wire {
+
+TcpFrame
+
+    , UdpFrame
+,
+
+    }
+")).
+Eval vm_compute in ("<<<M1662>>>" ++ check (runes_of_ascii "packet int {
+    uint16 BodyLength,
+    zchar[255] charz `100% of %d`,
+    Logon @lengthOf(MetaDataX),
+}
+
+packet a1 {
+    match pack as msg_type {
+        10 : float,
+        """ ++ [233]%N ++ runes_of_ascii "t" ++ [233]%N ++ runes_of_ascii """ : charz,
+        4294967296 : Foo,
+        """ ++ [233]%N ++ runes_of_ascii "t" ++ [233]%N ++ runes_of_ascii """ : u128,
     },
-    @tag(4294967296)
-    @tag(7)
-    @rightPad(	'\x00'
-            )
-    repeat uint64 i8i8,
-    char[42] string_ `// not a comment`,
+    repeat Pad {
+        repeat Foo {
+            uint64 Header,
+            repeat roots rootA `say ""hi""`,
+        },
+    },
 }
 
-MetaData pack {
-    x o `two words`,
-    x As,
-    uint64 BodyLength `// not a comment`,
-    x a1 ``,
-    T int `it's`,
+packet Header {
+}")).
+Eval vm_compute in ("<<<M1448>>>" ++ check (runes_of_ascii "packet string_ {
+    @tag(4294967296)
+    repeat u `crlf
+    line`,
+    repeat zchar[0] BodyLength,
+    @tag(255)
+    int `say ""hi""`,
+    uint8x `u8 x,`,
+    @leftPad(' ')
+    string MetaDataX @lengthOf(options1),
+    zchar[00] charz `" ++ [28040; 24687; 31867; 22411]%N ++ runes_of_ascii "`,
+    @calculatedFrom(""" ++ [128512]%N ++ runes_of_ascii """)
+    _x calculatedFrom,
+    uint8 packetx `it's`,
+    @leftPad()
+    zchar[0] Foo `a\`,
+}")).
+Eval vm_compute in ("<<<M1442>>>" ++ check (runes_of_ascii "// top
+MetaData x {
+    // c2
+    f32a Pad ``,// c6a
+    // c6b
+}
+
+// c7
+packet leftPad {
+    // c10a
+    // c10b
+    repeat int64 crc,// c14a
+    // c14b
+    BodyLength {
+        // c16
+        uint8 pack `say ""hi""`,
+        // c20
+        lengthOf @lengthOf(asx) `" ++ [28040; 24687; 31867; 22411]%N ++ runes_of_ascii "`,
+        // c26
+    },// c28
+}// c29a
+// c29b")).
+Eval vm_compute in ("<<<M1843>>>" ++ check (runes_of_ascii "root  packet
+
+_x { 
+uint32 	 //	t
+	trueish
+	@calculatedFrom(""1""
+	)
+    `tab	here` 
+,
+	}
+
+    packet 
+Header {	repeat
+    u64  stringy `u8 x,`
+,
+float32
+
+    msg_type, repeat
+x_y_z  crc
+
+`two words`
+
+    ,
+
+    zchar[// c
+    007
+    ]
+Packet,
+	string  asx
+	`say ""hi""` 
+, }
+
+")).
+Eval vm_compute in ("<<<M1723>>>" ++ check (runes_of_ascii "// top
+options {
+    // c1
+    f32a = 0
+    // c4
+}
+
+// c5
+packet trueish {
+    // c8
+}
+
+// c9
+MetaData _x {
+    // c12
+    char[0123456789] zchar,
+    // c17
+    string crc,
+    // c20
+    char[1] options1,
+    // c25
+    uint8 repeatCount,
+    // c28
+}
+// c29")).
+Eval vm_compute in ("<<<M1880>>>" ++ check (runes_of_ascii "MetaData calculatedFrom {
+    /// triple
+    matchKey packetx,
+    float32 u128,// `tick` ""quote"" 'q'
+}
+
+MetaData uint8x {
+    //	t
+    zchar[65535] As ``,
+    char[255] T `doc`,
+    zchar[255] int,
+    float64 i64_ `tab	here`,
+    char[] len,
+}")).
+Eval vm_compute in ("<<<M530>>>" ++ check (runes_of_ascii "packet
+    ~ asx { @calculatedFrom(
+""""  ) @tag( 255 )repeat
+// packet A { u8 x, }
+// trailing space 
+int16 u8x
+,
+@tag(
+    //
+    007 )
+    @tag( 0
+    /// triple
+    ) @tag( 1) u
+    @lengthOf( T ),
+// `tick` ""quote"" 'q'
+//x
+} // " ++ [128512]%N ++ runes_of_ascii " emoji")).
+Eval vm_compute in ("<<<M454>>>" ++ check (runes_of_ascii "packet
+    asx { @calculatedFrom(
+""""  ) @tag( 255 )repeat
+// packet A { u8 x, }
+// trailing space 
+int16 u8x
+,
+uint8
+    //
+    007 )
+    @tag( 0
+    /// triple
+    ) @tag( 1) u
+    @lengthOf( T ),
+// `tick` ""quote"" 'q'
+//x
+} // " ++ [128512]%N ++ runes_of_ascii " emoji")).
+Eval vm_compute in ("<<<M496>>>" ++ check (runes_of_ascii "packet
+    asx { @calculatedFrom(
+""""  ) @tag( 255 )repeat
+// packet A { u8 x, }
+// trailing space 
+int16 u8x
+,
+@tag(
+    //
+    007 )
+    @tag( 0
+    /// triple
+    ) @tag( 1) 
+    @lengthOf( T ),
+// `tick` ""quote"" 'q'
+//x
+} // " ++ [128512]%N ++ runes_of_ascii " emoji")).
+Eval vm_compute in ("<<<M323>>>" ++ check (runes_of_ascii "
+root
+packet int{ @tag( 0) @tag( 007 )
+@tag( 255
+) match i8i8 as
+//	t
+// 50% %s
+_x { ""\" ++ [233]%N ++ runes_of_ascii """ : //
+i64_ 42 :
+    asx , 0123456789:Logon 65535 // `tick` ""quote"" 'q'
+:  calculatedFrom ,""" ++ [233]%N ++ runes_of_ascii "t" ++ [233]%N ++ runes_of_ascii """ // c
+:u
+    },
+    /// triple
+    }
+")).
+Eval vm_compute in ("<<<M1548>>>" ++ check (runes_of_ascii "MetaData trueish {
+    string u,
+    // @lengthOf(
+    //x
+    pack Pad `say ""hi""`,// a // b
+    int32 tag,
+    u8 asx,// 50% %s
+    i32 len,
+    int int `100% of %d`,
 }
 
 MetaData falsey {
-    Header BodyLength ``,
 }
-
-root packet trueish {
-    i16 trueish @calculatedFrom(""`tick`"") `line1
-        line2`,
-    f64 As,
-    string T @lengthOf(pack) `100% of %d`,
-    @lengthOf(matchKey)
-    repeat char[00] lengthOf `line1
-        line2`,
-    zchar[3] _x @calculatedFrom(""`tick`""),
-    // " ++ [27880; 37322]%N ++ runes_of_ascii "
-    // trailing space 
-    @tag(00)
-    //	t
-    zchar[4294967296] msg_type,
-    repeat body,
-    Logon,
-    @tag(1)
-    @calculatedFrom(""packet"")
-    zchar[3] Z9_,
-}")).
-Eval vm_compute in ("<<<M1501>>>" ++ check (runes_of_ascii "root packet Logon {
-    calculatedFrom calculatedFrom `it's`,
+// @lengthOf(")).
+Eval vm_compute in ("<<<M1343>>>" ++ check (runes_of_ascii "packet u128 {
+    u8 a,
 }
-
-packet calculatedFrom {
-    @rightPad( )
-    string u @calculatedFrom(""packet""),
-    @leftPad('\x00')
-    @tag(1)
-    @tag(3)
-    Packet {
-        string_ pack,
-        As @calculatedFrom(""a\""b"") `doc`,
-        repeat msg_type metadata,
-        // trailing space 
-        //x
+root packet Msg {
+    u8 k,
+    u24 {
+        u8 Hi,
+        u16 Lo,
     },
-    _x `" ++ [233]%N ++ runes_of_ascii "`,
-    zchar[3] MetaDataX,
-    repeat string asx `say ""hi""`,
-    @lengthOf(trueish)
-    @lengthOf(uint8x)
-    @rightPad(
-        // " ++ [128512]%N ++ runes_of_ascii " emoji
-        //
-        )
-    char[0123456789] T `" ++ [28040; 24687; 31867; 22411]%N ++ runes_of_ascii "`,
-}/// triple
-
-packet x {
-    @rightPad( )
-    @calculatedFrom(""it's"")
-    @tag(42)
-    packetx falsey,
-    char[1] body,
-    @calculatedFrom(""" ++ [28040; 24687]%N ++ runes_of_ascii """)
-    tag @calculatedFrom(""\" ++ [233]%N ++ runes_of_ascii """),
-    Packet `100% of %d`,
-    //x
-    @tag(255)
-    float32 body @calculatedFrom(""abc""),
-    char f32a,
-    @lengthOf(u)
-    repeat int32 a1,
-    @tag(4294967296)
-    f32 o @calculatedFrom(""\n"") `tab	here`,
-    char[] calculatedFrom `two words`,
-    calculatedFrom @lengthOf(matchKey),
-}")).
-Eval vm_compute in ("<<<M1927>>>" ++ check (runes_of_ascii "options {
-    LittleEndian
-	=
-    false 
-;
-StringPrefixLenType
-    = 
-u16  ;  ArrayPrefixLenType
-
-    =
-u8
-    ;  FixedStringPadChar=
-	'0' 
-; }
-packet Leg
-	{
-
-    zchar[ 1 ]Ref  ,  repeat
-    string 
-count,
-repeat
-InMsgkind21
-    { 
-repeat char[
-2
-]price,uint64
-sym  ,zchar[ 
-9 ] msgKind  ,  }
-	,
-
-zchar[
-
-    5  ] Note
-    ,
-
-    } 
-packet Ack
-{ u16
-seqNo ,  repeat char[ 1 
-]	Acct
-
-,
-    @leftPad
-
-    (  ' '
-
-)
-    char[4 
-] msgKind,  repeat
-InTag747 {	Leg,  }
-,	repeat 
-string
-Tail ,
-
-Leg
-
-,	}
-	packet Trade 
-{
-    u64 clOrdID
-, repeat
-
-    InLastpx24{char[10 
-]
-	Note
-
-    ,
-char[ 3	]
-
-Qty	,
-	repeat  char[
-    2 ]
-	Side2
-	,Ack	, 
-repeat
-InX47
-{ 
-Ack , 
-}  ,
-}
-    ,
-
-    } root packet
-Heartbeat
-{
-
-repeat u64  Acct
-
-,	string
-lastPx
-,
-
-u8 Side2
-,
-    match
-Side2
-as	Body
-
-{
-
-    2 
-:
-
-    Trade,
-	157:
-
-    Ack ,46: Leg ,}
-
-,
-
-u32
-sym	@calculatedFrom( 
-""CRC32""	) ,
-}
-")).
-Eval vm_compute in ("<<<M260>>>" ++ check (runes_of_ascii "
-packet
-pack { char[] falsey ,  @lengthOf(
-zchar) @rightPad	(
-)
-    float
-    roots,	@calculatedFrom(""// no comment""
-    ) i64 u8x ,
-@lengthOf(
-lengthOf)@leftPad	(
-    )
-    @tag(
-    4294967296	) Packet, match uint8x as Foo // `tick` ""quote"" 'q'
-{
-    ""abc""
-: string_ , } ,
-Logon{repeat//
-char[ 65535 ]matchKey `100% of %d`
-,
-zchar[
-    0123456789] leftPad @calculatedFrom( ""// no comment"" ) ,string // packet A { u8 x, }
-len, }, // @lengthOf(
-u64 body  @lengthOf( string_ )
-    ,
-    // c
-    Z9_
-charz `tab	here` ,
-    //x
-    }MetaData u
-    { lengthOf chars `" ++ [28040; 24687; 31867; 22411]%N ++ runes_of_ascii "` ,  char[ // 50% %s
-007 ] options1`100% of %d`, body u8x , float32/// triple
-body
-`u8 x,` , } packet //	t
-T // c
-{}
-    packet
-    i8i8
-{
-    string
-    packetx, tag
-falsey,} 	 ")).
-Eval vm_compute in ("<<<M1753>>>" ++ check (runes_of_ascii "// top
-    packet // c0a
-    // c0b
-  	u128 
-
-// c1
-{// c2a
-	  // c2b
-u8
-    // c3
-  a
-,
-
-// c5
-}	// c6a
-    // c6b
-root	// c7a
-	// c7b
-    packet // c8a
-
-	// c8b
-      Msg // c9
-
-{ 	 // c10a
-// c10b
-  u8 
-  // c11
-    k 	 // c12a
-// c12b
-	,  u24// c14a
-    // c14b
-
-	{  // c15
-	u8	// c16a
-
-	// c16b
-  Hi 
-
-// c17
-      ,u16 	 // c19
-Lo
-	,// c21
-}, 	 // c23a
-  // c23b
-  repeat 
-	    // c24
-  	i24
-// c25
-    {// c26
-		u32  
-      // c27
-
-q 
-// c28
-  , 	 // c29
-
-}	// c30
-,	// c31
-u128	// c32
-  ,// c33
-  	u16  // c34a
-    // c34b
-	float32x
-    ,	// c36
-  string// c37a
-		// c37b
-s // c38a
-	// c38b
-  	,	// c39a
-  // c39b
-    }// c40a
-	// c40b
-")).
-Eval vm_compute in ("<<<M25>>>" ++ check (runes_of_ascii "
-packet float// @lengthOf(
-{
-}
-root packet Foo
-    { @calculatedFrom(
-""\" ++ [233]%N ++ runes_of_ascii """ )char[ 7] u128
-    ,
-@calculatedFrom(	""1"") repeat
-    char[3] u `100% of %d`,  u128
-    // " ++ [27880; 37322]%N ++ runes_of_ascii "
-    ,
-@tag( 3 ) char[
-3 ] rootA
-`two words` //x
-, @leftPad() metadata  @lengthOf( //x
-leftPad) ,
-string
-    // 50% %s
-    i8i8@calculatedFrom(""{,}""
-)
-,repeat int32 T , @calculatedFrom(
-""abc""
-    )@lengthOf( options1
-)	@lengthOf(options1 ) match
-    T// " ++ [27880; 37322]%N ++ runes_of_ascii "
-as body// a // b
-{
-    ""{,}""
-// `tick` ""quote"" 'q'
-//	t
-:
-// packet A { u8 x, }
-//
-stringy
-    , } ,@lengthOf( Packet ) leftPad
-`tab	here`,  } 	 ")).
-Eval vm_compute in ("<<<M185>>>" ++ check (runes_of_ascii "packet metadata { Header// @lengthOf(
-u128 ,
-} packet zchar{/// triple
-@tag(
-4294967296 ) @lengthOf( a1 ) i8
-_x `crlf
-line`, @lengthOf( _x
-) match
-    x_y_z as
-    Packet
-    {0 : leftPad, 65535 : tag 00 :leftPad,  ""a\\"" : Packet ,  10 :
-    o,  [ ""CRC32""
-    ]
-    :
-    float // " ++ [128512]%N ++ runes_of_ascii " emoji
-,
-}
-    , match stringy
-as calculatedFrom {""`tick`"" :rootA  , ""`tick`"" : asx
-// packet A { u8 x, }
-/// triple
-,3 :
-u128 ,
-} ,@lengthOf(
-msg_type
-)
-@tag(
-10 )// 50% %s
-repeatCount@lengthOf(string_
-    ) `a\` , }
-")).
-Eval vm_compute in ("<<<M1372>>>" ++ check (runes_of_ascii "options {
-    LittleEndian = true;
-    ArrayPrefixLenType = u32;
-    FixedStringPadChar = ' ';
-}
-packet Order {
-    char[5] seqNo,
-    uint8 Px,
-}
-packet Logon {
-    @rightPad('\x00') char[8] Flags,
-    zchar[3] count,
-    repeat Order,
-}
-root packet Party {
-    repeat Logon,
-    repeat char[1] x,
-    u32 price,
-    u32 Side2 @lengthOf(Body),
-    match price as Body {
-        49 : Order,
-        196 : Logon,
+    repeat i24 {
+        u32 q,
     },
-    u32 f1 @calculatedFrom(""CR\
-C32""),
+    u128,
+    u16 float32x,
+    string s,
 }
 ")).
-Eval vm_compute in ("<<<M186>>>" ++ check (runes_of_ascii "// @lengthOf(
-packet  Pad{
-    string_ @calculatedFrom( """ ++ [128512]%N ++ runes_of_ascii """ ),
-//	t
-// c
-char[ 255
-] metadata@calculatedFrom( ""1"" )
-// trailing space 
-// 50% %s
+Eval vm_compute in ("<<<M567>>>" ++ check (runes_of_ascii "MetaData u
+    { } MetaData MetaData o
+{ float uint8x
+`100% of %d` ,repeatCount u8x, string_ leftPad
+, i32
+    Foo , int64 x `two words` , calculatedFrom
+stringy `a\` ,
+}
+")).
+Eval vm_compute in ("<<<M688>>>" ++ check (runes_of_ascii "MetaData u
+    { } MetaData o
+{ float uint8x
+`100% of %d` ,repeatCount u8x, string_ leftPad
+, i32
+    Foo , int64 x `two words` , calculatedFrom
+stringy `a\` ,
+char
+")).
+Eval vm_compute in ("<<<M695>>>" ++ check (runes_of_ascii "MetaData u
+    { } MetaData o
+{ float uint8x
+`100% of %d` ,re~peatCount u8x, string_ leftPad
+, i32
+    Foo , int64 x `two words` , calculatedFrom
+stringy `a\` ,
+}
+")).
+Eval vm_compute in ("<<<M643>>>" ++ check (runes_of_ascii "MetaData u
+    { } MetaData o
+{ float uint8x
+`100% of %d` ,repeatCount u8x, string_ leftPad
+, i32
+    Foo int64 , x `two words` , calculatedFrom
+stringy `a\` ,
+}
+")).
+Eval vm_compute in ("<<<M634>>>" ++ check (runes_of_ascii "MetaData u
+    { } MetaData o
+{ float uint8x
+`100% of %d` ,repeatCount u8x, string_ leftPad
+, =
+    Foo , int64 x `two words` , calculatedFrom
+stringy `a\` ,
+}
+")).
+Eval vm_compute in ("<<<M352>>>" ++ check (runes_of_ascii "MetaData crc
+    // " ++ [128512]%N ++ runes_of_ascii " emoji
+    { packetx repeatCount  ,
+    f32a As //x
 `line1
-line2` ,	@rightPad (
-'0'
-)
-    @lengthOf(metadata ) @tag(
-007 ) repeat char[0
-]MetaDataX, uint8x, @tag(
-0 ) f32 uint8x
-@lengthOf( roots
-    ), repeat Packet
-//x
-// " ++ [27880; 37322]%N ++ runes_of_ascii "
-,MetaDataX `line1
-line2`,
-@lengthOf(int )string len`// not a comment`  , char[ 3 // c
-]
-    Pad, // " ++ [27880; 37322]%N ++ runes_of_ascii "
-}
+line2`, crc len `line1
+line2` , zchar[ 0123456789 ] uint8x , zchar[0 ]As, }
 ")).
-Eval vm_compute in ("<<<M1456>>>" ++ check (runes_of_ascii "packet u8x {
-    // trailing space 
-    repeat roots {
-        zchar[42] u @lengthOf(i64_) `line1
-                line2`,
-        f64 Packet ``,
-        zchar[4294967296] msg_type,
-    },
+Eval vm_compute in ("<<<M1556>>>" ++ check (runes_of_ascii "packet crc {
+    repeat Foo A,
+    @lengthOf(uint8x)
+    string matchKey @lengthOf(stringy) `a\`,
+    // c
 }
 
-root packet rootA {
-    @calculatedFrom(""// no comment"")
-    @calculatedFrom(""" ++ [233]%N ++ runes_of_ascii "t" ++ [233]%N ++ runes_of_ascii """)
-    match body as Foo {
-        10 : a1,
-    },
-    @tag(42)
-    @calculatedFrom(""1"")
-    repeat int64 float `u8 x,`,
+MetaData chars {
+    leftPad crc `" ++ [233]%N ++ runes_of_ascii "`,
 }")).
-Eval vm_compute in ("<<<M1270>>>" ++ check (runes_of_ascii "// top
-packet
-    // c0
-B // c1a
-  // c1b
-{ u8 // c3a
-  // c3b
-a // c4a
-  // c4b
-,
+Eval vm_compute in ("<<<M1797>>>" ++ check (runes_of_ascii "// top
+packet Inner {
+    // c2
+    u8 a,
     // c5
-} // c6a
-  // c6b
-root packet
-    // c8
-P
-    // c9
-{ u8 K // c12
-, // c13
-u8
-    // c14
-L
-    // c15
-@lengthOf( Body ) , match // c20a
-  // c20b
-K // c21a
-  // c21b
-as
-    // c22
-Body // c23
-{ 1 // c25
-: // c26a
-  // c26b
-B , // c28a
-  // c28b
 }
-    // c29
-, } ")).
-Eval vm_compute in ("<<<M1720>>>" ++ check (runes_of_ascii "packet u {
-    match x_y_z as leftPad {
-        0123456789 : x_y_z,
-    },
-    @rightPad()
-    u64 trueish,
-    repeat u64 trueish `line1
-        line2`,
-    @rightPad( )
-    // a // b
-    char[255] _x `// not a comment`,
-    zchar[7] leftPad,
-    match chars as lengthOf {
-        1 : o,
-        42 : chars,
-    },
-}")).
-Eval vm_compute in ("<<<M340>>>" ++ check (runes_of_ascii "packet o {
-    float64  zchar
-@lengthOf(trueish ) // `tick` ""quote"" 'q'
-, } packet packetx
-    {  } root	packet trueish { char[1 ]Z9_ @lengthOf( body
-    ) , @lengthOf(chars
-)
-    msg_type i64_ , u16
-Logon ,
-int64 Packet
-    // `tick` ""quote"" 'q'
-    , // packet A { u8 x, }
-}
-")).
-Eval vm_compute in ("<<<M55>>>" ++ check (runes_of_ascii "MetaData // @lengthOf(
-calculatedFrom { /// triple
-matchKey packetx
-    , float32 u128 ,// `tick` ""quote"" 'q'
-}
-    MetaData uint8x { //	t
-zchar[ 65535
-]As
-    `` ,char[ 255] T
-`doc` ,zchar[// " ++ [128512]%N ++ runes_of_ascii " emoji
-255] int  , float64 i64_ //
-`tab	here` ,char[]  len , }
-")).
-Eval vm_compute in ("<<<M482>>>" ++ check (runes_of_ascii "packet
-    asx { @calculatedFrom(
-""""  ) @tag( 255 )repeat
-// packet A { u8 x, }
-// trailing space 
-int16 u8x
-,
-@tag(
-    //
-    007 )
-    @tag( 0
-    /// triple
-    ) @tag( @tag( 1) u
-    @lengthOf( T ),
-// `tick` ""quote"" 'q'
-//x
-} // " ++ [128512]%N ++ runes_of_ascii " emoji")).
-Eval vm_compute in ("<<<M497>>>" ++ check (runes_of_ascii "packet
-    asx { @calculatedFrom(
-""""  ) @tag( 255 )repeat
-// packet A { u8 x, }
-// trailing space 
-int16 u8x
-,
-@tag(
-    //
-    007 )
-    @tag( 0
-    /// triple
-    ) @tag( 1) u u
-    @lengthOf( T ),
-// `tick` ""quote"" 'q'
-//x
-} // " ++ [128512]%N ++ runes_of_ascii " emoji")).
-Eval vm_compute in ("<<<M433>>>" ++ check (runes_of_ascii "packet
-    asx { @calculatedFrom(
-""""  ) @tag( 255 )int16
-// packet A { u8 x, }
-// trailing space 
-repeat u8x
-,
-@tag(
-    //
-    007 )
-    @tag( 0
-    /// triple
-    ) @tag( 1) u
-    @lengthOf( T ),
-// `tick` ""quote"" 'q'
-//x
-} // " ++ [128512]%N ++ runes_of_ascii " emoji")).
-Eval vm_compute in ("<<<M446>>>" ++ check (runes_of_ascii "packet
-    asx { @calculatedFrom(
-""""  ) @tag( 255 )repeat
-// packet A { u8 x, }
-// trailing space 
-int16 u8x
 
-@tag(
-    //
-    007 )
-    @tag( 0
-    /// triple
-    ) @tag( 1) u
-    @lengthOf( T ),
-// `tick` ""quote"" 'q'
-//x
-} // " ++ [128512]%N ++ runes_of_ascii " emoji")).
-Eval vm_compute in ("<<<M336>>>" ++ check (runes_of_ascii "// c
-options {As
-='0'// 50% %s
-;
-float =
-    //
-    char[]	u =
-    ""a\""b"" ; msg_type = u32 ;	falsey = 7 ;/// triple
-}
-    // a // b
-    packet x_y_z { T// " ++ [27880; 37322]%N ++ runes_of_ascii "
-``, } packet
-    pack{ @leftPad ( ) rootA float , } // packet A { u8 x, }")).
-Eval vm_compute in ("<<<M1258>>>" ++ check (runes_of_ascii "// top
-options // c0
-{ // c1a
-  // c1b
-LittleEndian = // c3
-true ; } // c6a
-  // c6b
-root // c7a
-  // c7b
-packet
-    // c8
-P {
-    // c10
-repeat char
-    // c12
-cs ,
-    // c14
-u8 x // c16a
-  // c16b
-,
-    // c17
-} ")).
-Eval vm_compute in ("<<<M1429>>>" ++ check (runes_of_ascii "packet
-crc{
-repeat
-	Foo A,@lengthOf(
+// c6
+root packet P {
+    // c10a
+    // c10b
+    Inner ref_obj,
+    u8 x,
+}// c17")).
+Eval vm_compute in ("<<<M1540>>>" ++ check (runes_of_ascii "
 
-uint8x
-
-) string 
-matchKey@lengthOf( stringy
-
-    )
-    `a\`
-
-    ,  
-      // c
+  options {
 	}
 
-    MetaData	chars
+options{	MetaDataX	=
+char	;
+}	MetaData	Pad {i8
+	metadata
 
-    {
-
-leftPad 
-	    //	t
-crc `" ++ [233]%N ++ runes_of_ascii "` ,	}
-
-")).
-Eval vm_compute in ("<<<M87>>>" ++ check (runes_of_ascii "
-options { lengthOf = """ ++ [233]%N ++ runes_of_ascii "t" ++ [233]%N ++ runes_of_ascii """options1
-=
-    u32
-    // packet A { u8 x, }
-    ; Pad=// @lengthOf(
-'0'
-BodyLength
-    = 00
-}
-    packet
-x
-{ @rightPad( '0' ) string
-    Header ,}
-")).
-Eval vm_compute in ("<<<M684>>>" ++ check (runes_of_ascii "MetaData u
-    { } MetaData o
-{ float uint8x
-`100% of %d` ,repeatCount u8x, string_ leftPad
-, i32
-    Foo , int64 x `two words` , calculatedFrom
-stringy `a\` repeat
+    , 
+string stringy ,
+	int8
+As
+	`{ , }` ,// c
 }
 ")).
-Eval vm_compute in ("<<<M662>>>" ++ check (runes_of_ascii "MetaData u
-    { } MetaData o
-{ float uint8x
-`100% of %d` ,repeatCount u8x, string_ leftPad
-, i32
-    Foo , int64 x `two words` , , calculatedFrom
-stringy `a\` ,
+Eval vm_compute in ("<<<M1940>>>" ++ check (runes_of_ascii "packet B {
+    u8 a,
 }
-")).
-Eval vm_compute in ("<<<M583>>>" ++ check (runes_of_ascii "MetaData u
-    { } MetaData o
-{ uint8x float
-`100% of %d` ,repeatCount u8x, string_ leftPad
-, i32
-    Foo , int64 x `two words` , calculatedFrom
-stringy `a\` ,
+
+root packet P {
+    u8 K,
+    match K as Body {
+        1 : B,
+    },
+    u16 L @lengthOf(Body),
+}")).
+Eval vm_compute in ("<<<M1968>>>" ++ check (runes_of_ascii "packet A {
+    u16 len @lengthOf(body) `x
+    `,
+    u32 crc @calculatedFrom(""CRC32"") `x
+    `,
+    string body,
+}")).
+Eval vm_compute in ("<<<M1232>>>" ++ check (runes_of_ascii "options { } options { MetaDataX = char ; } MetaData Pad { i8 metadata
+// c
+, string stringy , int8 As `{ , }` , }")).
+Eval vm_compute in ("<<<M1901>>>" ++ check (runes_of_ascii "options {
+    LittleEndian = true;
 }
+
+root packet P {
+    u16 a,
+    u32 Sum @calculatedFrom(""CR\
+    C32""),
+}")).
+Eval vm_compute in ("<<<M373>>>" ++ check (runes_of_ascii "
+MetaData //x
+o {
+i8
+    lengthOf `two words` , msg_type MetaDataX ``
+, /// triple
+u32 int `a\` , }")).
+Eval vm_compute in ("<<<M1280>>>" ++ check (runes_of_ascii "  packet 
+B  {
+u8 a  , string  s ,
+} root packet P
+	{	u16
+L@lengthOf(
+
+    B
+),B 
+,	u8
+
+t
+
+,
+
+}")).
+Eval vm_compute in ("<<<M869>>>" ++ check (runes_of_ascii "packet A {
+  match k as n {
+    [""a"", 22, ""c c"", 4, ""e"", 66, ""g"", 8, ""i""] : B,
+    2 : C
+  },
+}")).
+Eval vm_compute in ("<<<M249>>>" ++ check (runes_of_ascii "MetaData charz
+{
+    pack MetaDataX
+    , falsey crc  , u32
+    u `// not a comment`
+,}
 ")).
-Eval vm_compute in ("<<<M596>>>" ++ check (runes_of_ascii "MetaData u
-    { } MetaData o
-{ float uint8x
-`100% of %d` repeatCount u8x, string_ leftPad
-, i32
-    Foo , int64 x `two words` , calculatedFrom
-stringy `a\` ,
-}
-")).
-Eval vm_compute in ("<<<M646>>>" ++ check (runes_of_ascii "MetaData u
-    { } MetaData o
-{ float uint8x
-`100% of %d` ,repeatCount u8x, string_ leftPad
-, i32
-    Foo ,  x `two words` , calculatedFrom
-stringy `a\` ,
-}
-")).
-Eval vm_compute in ("<<<M1467>>>" ++ check (runes_of_ascii "  options
-
-{ } 
-options
-{  MetaDataX
-
-    = char	;}
-
-    MetaData	Pad
-{i8
-
-metadata
-    ,
-    string
-	stringy  ,	// c
-int8
-
-    As
-`{ , }` 
-,  }
-
-")).
-Eval vm_compute in ("<<<M1255>>>" ++ check (runes_of_ascii "// top
-root
-    // c0
-packet P // c2
-{ // c3
-repeat // c4a
-  // c4b
-char
-    // c5
-cs ,
-    // c7
-u8 // c8
-x // c9
-, // c10
-} // c11a
-  // c11b
-")).
-Eval vm_compute in ("<<<M465>>>" ++ check (runes_of_ascii "packet
+Eval vm_compute in ("<<<M844>>>" ++ check (runes_of_ascii "packet A {
+  match k as n {
+    [""a"", 22, ""c c"", 4, ""e"", 66, ""g""] : B
+    2 : C
+  },
+}")).
+Eval vm_compute in ("<<<M527>>>" ++ check (runes_of_ascii "packet
     asx { @calculatedFrom(
 """"  ) @tag( 255 )repeat
 // packet A { u8 x, }
-// trailing space 
-int16 u8x
-,
-@tag(
-    //
-    007")).
-Eval vm_compute in ("<<<M1730>>>" ++ check (runes_of_ascii "packet A {
-    u16 len @lengthOf(body) `a
-    
-    b`,
-    u32 crc @calculatedFrom(""CRC32"") `a
-    
-    b`,
-    string body,
-}")).
-Eval vm_compute in ("<<<M1705>>>" ++ check (runes_of_ascii "// top
+/")).
+Eval vm_compute in ("<<<M1263>>>" ++ check (runes_of_ascii "packet Inner {
+    u8 a,
+}
 root packet P {
-    // c3
-    hdr {
-        // c5
-        u8 a,
-    },
-    // c10
-    u8 x,// c13a
-    // c13b
-}")).
-Eval vm_compute in ("<<<M1209>>>" ++ check (runes_of_ascii "options { } options // c
-{ MetaDataX = char ; } MetaData Pad { i8 metadata , string stringy , int8 As `{ , }` , }")).
-Eval vm_compute in ("<<<M1241>>>" ++ check (runes_of_ascii "options { } options { MetaDataX = char ; } MetaData Pad { i8 metadata , string stringy , int8 // c
-As `{ , }` , }")).
-Eval vm_compute in ("<<<M909>>>" ++ check (runes_of_ascii "packet A {
-  match k as n {
-    [""a"", 22, ""c c"", 4, ""e"", 66, ""g"", 8, ""i"", 10, ""k"", 12] : B
-    2 : C
-  },
-}")).
-Eval vm_compute in ("<<<M1523>>>" ++ check (runes_of_ascii "
-// top
-	options
-	// c0
-	{ 
-	// c1
-  A
-
-// c2
-		=
-// c3
-""// no comment""
-    // c4
-	  }
-// c5
+    repeat Inner items,
+    u8 x,
+}
 ")).
-Eval vm_compute in ("<<<M883>>>" ++ check (runes_of_ascii "packet A {
+Eval vm_compute in ("<<<M809>>>" ++ check (runes_of_ascii "packet A {
   match k as n {
-    [""a"", 22, ""c c"", 4, ""e"", 66, ""g"", 8, ""i"", 10] : B
+    [""a"", ""bb"", 007, ""d""] : B
     2 : C
   },
 }")).
-Eval vm_compute in ("<<<M884>>>" ++ check (runes_of_ascii "packet A {
-  match k as n {
-    [1, 22, ""c c"", 4, 5, ""f"", 7, 8, ""i"", 10] : B,
-    2 : C
-  },
-}")).
-Eval vm_compute in ("<<<M1532>>>" ++ check (runes_of_ascii "
-
-  packet A{	// a
-  @tag(
-
-    1)  u8 x , // b
-
-	// c
-  @tag(
-2	)
-u8
-
-    y , 
-} ")).
-Eval vm_compute in ("<<<M1728>>>" ++ check (runes_of_ascii "
-
-  packet A { @tag(1
-
-    ) 	 // a
-  	@leftPad
-	(
-'0' ) 	 // b
-  char[ 4	]	x 
-,}
-
-")).
-Eval vm_compute in ("<<<M845>>>" ++ check (runes_of_ascii "packet A {
-  match k as n {
-    [1, 22, ""c c"", 4, 5, ""f"", 7] : B,
-    2 : C
-  },
-}")).
-Eval vm_compute in ("<<<M838>>>" ++ check (runes_of_ascii "packet A {
-  match k as n {
-    [1, 22, 007, 4, 5, 66, 7] : B
-    2 : C
-  },
-}")).
-Eval vm_compute in ("<<<M1763>>>" ++ check (runes_of_ascii "
-
-  packet
-    A
-	{ 
-B
-b
-
-`
-`
-    ,	B  `
-`, repeat
-    B
-    bs
-
-`
-` , } ")).
-Eval vm_compute in ("<<<M791>>>" ++ check (runes_of_ascii "packet A {
-  match k as n {
-    [""a"", 22, ""c c""] : B,
-    2 : C
-  },
+Eval vm_compute in ("<<<M79>>>" ++ check (runes_of_ascii "root  packet Packet {
+match
+    f32a	as Foo// " ++ [27880; 37322]%N ++ runes_of_ascii "
+{
+1 :
+    tag ,	} ,
 }")).
 Eval vm_compute in ("<<<M940>>>" ++ check (runes_of_ascii "packet A {
     B b `a
@@ -1053,66 +1101,56 @@ b`,
 
 b`,
 }")).
-Eval vm_compute in ("<<<M1256>>>" ++ check (runes_of_ascii "
-
-  root packet
-P
-
-    {
-repeat
-
-char 
-cs , 
-u8
-	x  ,
-
-}
-
-")).
-Eval vm_compute in ("<<<M1107>>>" ++ check (runes_of_ascii "packet A { @tag(1) // a
- @leftPad('0') // b
- char[4] x, }")).
-Eval vm_compute in ("<<<M1606>>>" ++ check (runes_of_ascii "MetaData
-    M
-{ u8 
-x`a
-b`
-, 
-T  t `a
-b` , }
-")).
-Eval vm_compute in ("<<<M919>>>" ++ check (runes_of_ascii "MetaData M {
-    u8 x `a
-b`,
-    T t `a
-b`,
-}")).
-Eval vm_compute in ("<<<M420>>>" ++ check (runes_of_ascii "packet
-    asx { @calculatedFrom(
-""""  )")).
-Eval vm_compute in ("<<<M933>>>" ++ check (runes_of_ascii "packet A {
+Eval vm_compute in ("<<<M937>>>" ++ check (runes_of_ascii "MetaData M {
     u8 x `a
     b
   c`,
+    T t `a
+    b
+  c`,
 }")).
-Eval vm_compute in ("<<<M926>>>" ++ check (runes_of_ascii "root packet A {
-    u8 x `a
-b`,
-}")).
-Eval vm_compute in ("<<<M1894>>>" ++ check (runes_of_ascii "packet A {
-    u8 x `
-    x`,
-}")).
-Eval vm_compute in ("<<<M761>>>" ++ check (runes_of_ascii """\" ++ [233]%N ++ runes_of_ascii """ as char MetaData char[]")).
-Eval vm_compute in ("<<<M756>>>" ++ check (runes_of_ascii "*P%lQ*-j/'2~6mR?IfmeZN9s")).
-Eval vm_compute in ("<<<M66>>>" ++ check (runes_of_ascii "MetaData metadata { }")).
-Eval vm_compute in ("<<<M1006>>>" ++ check (runes_of_ascii "// c" ++ [160]%N ++ runes_of_ascii "
-packet A {
-}")).
-Eval vm_compute in ("<<<M1173>>>" ++ check (runes_of_ascii "packet x { } // c
-")).
-Eval vm_compute in ("<<<M154>>>" ++ check (runes_of_ascii "packet  i64_ { }")).
-Eval vm_compute in ("<<<M555>>>" ++ check (runes_of_ascii "MetaData")).
-Eval vm_compute in ("<<<M115>>>" ++ check (runes_of_ascii "
+Eval vm_compute in ("<<<M1107>>>" ++ check (runes_of_ascii "packet A { @tag(1) // a
+ @leftPad('0') // b
+ char[4] x, }")).
+Eval vm_compute in ("<<<M1098>>>" ++ check (runes_of_ascii "packet A { u8 x, } // a
+// b
+packet B {} // c
+// d")).
+Eval vm_compute in ("<<<M1573>>>" ++ check (runes_of_ascii "  MetaData  rootA
+
+    {options1
+a1 ,
+	}
 
 ")).
+Eval vm_compute in ("<<<M1704>>>" ++ check (runes_of_ascii "root packet P {
+    char c,
+    u8 x,
+}")).
+Eval vm_compute in ("<<<M1183>>>" ++ check (runes_of_ascii "options // c
+{ A = ""// no comment"" }")).
+Eval vm_compute in ("<<<M1109>>>" ++ check (runes_of_ascii "packet A { @tag( // a
+ 1 ) u8 x, }")).
+Eval vm_compute in ("<<<M745>>>" ++ check (runes_of_ascii "as u8 char float64 u16 : uint64")).
+Eval vm_compute in ("<<<M1457>>>" ++ check (runes_of_ascii "MetaData  tag
+	{
+	// c
+		} ")).
+Eval vm_compute in ("<<<M1926>>>" ++ check (runes_of_ascii "  // c" ++ [8239]%N ++ runes_of_ascii "
+  packet A
+{  }
+
+")).
+Eval vm_compute in ("<<<M1130>>>" ++ check (runes_of_ascii "MetaData tag { } // c
+")).
+Eval vm_compute in ("<<<M1005>>>" ++ check (runes_of_ascii "packet A {
+}
+// c" ++ [160]%N)).
+Eval vm_compute in ("<<<M1166>>>" ++ check (runes_of_ascii "
+// c
+packet x { }")).
+Eval vm_compute in ("<<<M1873>>>" ++ check (runes_of_ascii "packet x {
+}
+// c")).
+Eval vm_compute in ("<<<M764>>>" ++ check (runes_of_ascii "Ldg$cJ:9=")).
+Eval vm_compute in ("<<<M170>>>" ++ check (runes_of_ascii " 	 ")).
